@@ -14,7 +14,8 @@ CONSTANTS MaxItems, MaxImplItems, DumpCases
 R == INSTANCE Req
 
 CatOf(mode) == IF mode = "mod" THEN Cat ELSE ICat
-BodiesOf(mode) == IF mode = "mod" THEN UNION { [1..n -> Ids] : n \in 0..MaxItems }
+\* (valid Rust only: at most one ENABLED alternative of the function that is written once per cfg alternative)
+BodiesOf(mode) == IF mode = "mod" THEN { b \in UNION { [1..n -> Ids] : n \in 0..MaxItems } : Cardinality({ i \in DOMAIN b : b[i] = "cfgonalt" }) <= 1 }
                   ELSE UNION { [1..n -> IIds] : n \in 1..MaxImplItems }
 Inputs == { [mode |-> "mod", body |-> b] : b \in BodiesOf("mod") } \cup { [mode |-> "impl", body |-> b] : b \in BodiesOf("impl") }
 
